@@ -199,7 +199,12 @@ pub fn run(ctx: &mut Ctx) {
     if ctx.begin_case(idx, "validate-honest") {
         validate_check(ctx, &rpd, Some(true), "honest");
     }
-    let positions: Vec<usize> = if ctx.thorough() { (0..128).collect() } else { (0..128).step_by(5).collect() };
+    // quick: every 5th digit, the offset rotating with the seed, both ends always
+    let positions: Vec<usize> = if ctx.thorough() { (0..128).collect() } else {
+        let mut v: Vec<usize> = ((ctx.seed as usize % 5)..128).step_by(5).collect();
+        for e in [0usize, 1, 126, 127] { if !v.contains(&e) { v.push(e); } }
+        v
+    };
     for &i in &positions {
         idx += 1;
         if !ctx.begin_case(idx, "validate-substitution") { continue; }
@@ -226,6 +231,9 @@ pub fn run(ctx: &mut Ctx) {
     if ctx.begin_case(idx, "constraint-shapes") {
         if let Some(run) = range_honest(ctx, &rp, &rpd, 77, None) {
             let b = constraint_bytes(&ctx.book, &run.proofs);
+            // a digit proof carrying a point outside the prime-order subgroup (e.g. a small-order σ₁ with σ₂ = 1,
+            // for which the pairing equation holds for any commitment) must not decode
+            crate::codec::bad_point_decode_probe::<RangeConstraint>(ctx, "range-constraint", &crate::codec::rc(), &b);
             let eight = wire::de::<RangeConstraint>(&b[..8 * 360]).is_ok();
             ctx.count(&format!("decode:eight-digit-constraint:{}", eight));
             if eight {
